@@ -23,6 +23,7 @@ import os
 from lib import core
 
 DRIVER = "drv_control"
+LEAN_TARGETS = ["OmplModel.Props.C02", DRIVER]
 B = core.f2bits
 F = core.bits2f
 PI = 3.14159265358979323846
@@ -614,8 +615,8 @@ def run(ck):
                        "planners other than control::RRT are covered only on the explored runs (trace conformance, no model)",
                        "every duration must be a whole number k >= 0 of steps; k in [minSteps,maxSteps] is proved for control::RRT "
                        "(k = 1 with intermediate states) and only counted for the others (KPIECE1/PDST split motions at cell boundaries)"]
-    ck.lean_build(["OmplModel.Props.C02", DRIVER])
-    ck.audit()
+    ck.lean_build(LEAN_TARGETS)
+    ck.audit(roots=["Drv.Control"])
     if ck.tier == "thorough" and ck.lean_ok:
         ck.leanchecker(["OmplModel.Props.C02"])
     hbin = ck.build_harness("control", ["control.cpp"], link_ompl=True)
